@@ -112,7 +112,7 @@ def inlined(facts, body, depth=MAX_DEPTH, skip=None, tag=None, sugar=False):
             retries += 1
             for i, blk in enumerate(blocks):
                 tt = blk.get("term")
-                if tt and tt["k"] == "call" and not blk["cleanup"] and (tt.get("def") or "").startswith("std::iter::Iterator::") and not tt.get("synthetic"):
+                if tt and tt["k"] == "call" and not blk["cleanup"] and (tt.get("def") or "").startswith("std::iter::Iterator::") and (not tt.get("synthetic") or tt.get("def") == "std::iter::Iterator::next"):
                     work.append((i, 1, (body.id,)))
                 elif tt and tt["k"] == "call" and tt.get("awaited") == "pending-construction":
                     # an awaited `async fn` whose constructor call had not been inlined yet
